@@ -51,6 +51,9 @@ def gen_cases(ctx):
         # a second live dispatcher that uses the SAME filter object and reaches the same job
         # progress along another order of the same dispatches
         c["sibling"] = filt and rng.random() < 0.3
+        # the dispatcher is copied (copy.deepcopy) or serialised (pickle round trip) mid-history;
+        # the copy goes its own way, both clocks are judged
+        c["fork"] = rng.choice([None] * 6 + ["deepcopy", "pickle"])
         if i % 40 == 7:
             # non-integral durations: only monotonicity, growth of the completed set and
             # "clock == makespan at completion" are judged (the library truncates the clock)
@@ -97,6 +100,8 @@ def one_history(ctx, case, explicit=None, instance=None):
                   dispatcher=Dispatcher(run.instance,
                                         ready_operations_filter=d.ready_operations_filter))
         ctx.count("histories_with_a_sibling_sharing_the_filter")
+    fork_kind = case.get("fork") if explicit is None else None
+    fork_at = rng.randint(1, max(1, r.num_ops - 1)) if fork_kind else None
     last = d.current_time()
     ctx.count("clock_steps_checked")
     if last != r.current_time(None) and run.clock_exact:
@@ -176,6 +181,9 @@ def one_history(ctx, case, explicit=None, instance=None):
                                    "history": list(sib.r.history), "filter": run.filter_names,
                                    "who": "second dispatcher sharing the filter object",
                                    "other_history": list(r.history)})
+        if fork_at is not None and len(r.history) == fork_at:
+            fork_at = None
+            _fork_and_judge(ctx, case, run, rng, fork_kind, completed)
         now = d.current_time()
         ctx.count("clock_steps_checked")
         if sib is not None and pending is None and sib.clock_exact \
@@ -224,6 +232,58 @@ def one_history(ctx, case, explicit=None, instance=None):
     if len(d.completed_operations()) != r.num_ops:
         ctx.violation("c06_not_all_completed_at_end", {"history": list(r.history)})
     return run, advances
+
+
+def _fork_and_judge(ctx, case, run, rng, kind, completed_before):
+    import copy
+    import pickle
+    try:
+        d2 = copy.deepcopy(run.d) if kind == "deepcopy" else pickle.loads(pickle.dumps(run.d))
+    except Exception:
+        if kind == "deepcopy":
+            raise
+        ctx.count("dispatchers_not_picklable")      # closures / lambdas among filters or observers
+        return
+    ctx.count("forks_by_" + kind)
+    twin = Run(case["instance"], case.get("filter"), dispatcher=d2, instance=d2.instance)
+    twin.r = run.r.clone()
+    w = {"fork": kind, "history_at_fork": list(run.r.history), "filter": run.filter_names}
+    last2 = d2.current_time()
+    if last2 != run.d.current_time():
+        ctx.violation("c06_clock_of_copy_differs_at_fork",
+                      dict(w, copy=last2, original=run.d.current_time()))
+        return
+    comp2 = set(x.operation_id for x in d2.completed_operations())
+    if comp2 != set(x.operation_id for x in run.d.completed_operations()):
+        ctx.violation("c06_completed_set_of_copy_differs_at_fork", w)
+        return
+    steps = rng.randint(1, max(1, twin.r.num_ops - len(twin.r.history)))
+    for _ in range(steps):
+        if twin.done():
+            break
+        o, m = twin.choose(rng, rng.choice(gen.POLICIES))
+        twin.dispatch(o, m)
+        now2 = d2.current_time()
+        ctx.count("fork_clock_checks")
+        if now2 < last2:
+            ctx.violation("c06_clock_went_backwards",
+                          dict(w, before=last2, after=now2, history=list(twin.r.history), who="copy"))
+            return
+        if run.clock_exact and now2 != twin.r.current_time(None):
+            ctx.violation("c06_clock_differs_from_reference",
+                          dict(w, got=now2, want=twin.r.current_time(None),
+                               history=list(twin.r.history), who="copy"))
+            return
+        c2 = set(x.operation_id for x in d2.completed_operations())
+        if not comp2 <= c2:
+            ctx.violation("c06_completed_set_shrank", dict(w, lost=sorted(comp2 - c2), who="copy"))
+            return
+        last2, comp2 = now2, c2
+    if twin.done() and d2.current_time() != twin.r.makespan():
+        ctx.violation("c06_clock_not_makespan_at_completion",
+                      dict(w, clock=d2.current_time(), makespan=twin.r.makespan(), who="copy"))
+    # the original must be untouched by what happened on the copy (judged by the caller's own
+    # checks right after this returns)
 
 
 def run_case(ctx, case):
